@@ -111,6 +111,9 @@ func ruleCallbackConsumers(c *core.Ctx, want map[string]bool) {
 		return
 	}
 	for _, cb := range cbs {
+		if _, fwd := forwardingCallback(cb); fwd {
+			continue // hands everything on to another callback and answers what that answers: judged there
+		}
 		fname := core.FuncName(cb)
 		pos := c.P.Pos(cb.Pos())
 		for r := range want {
@@ -741,4 +744,107 @@ func derefsParamUnchecked(g *ssa.Function, idx int) bool {
 		}
 	}
 	return deref && !checked
+}
+
+// forwardingCallback: cb hands its own (record, error) to another callback it captured and answers with that
+// callback's answer on every path (a wrapper that counts or logs on the way). The index of the captured variable.
+func forwardingCallback(cb *ssa.Function) (int, bool) {
+	if cb == nil || len(cb.Params) != 2 || len(cb.FreeVars) == 0 {
+		return 0, false
+	}
+	idx := -1
+	rets := 0
+	for _, b := range cb.Blocks {
+		ret, ok := b.Instrs[len(b.Instrs)-1].(*ssa.Return)
+		if !ok {
+			continue
+		}
+		rets++
+		if len(ret.Results) != 2 {
+			return 0, false
+		}
+		e0, ok0 := ret.Results[0].(*ssa.Extract)
+		e1, ok1 := ret.Results[1].(*ssa.Extract)
+		if !ok0 || !ok1 || e0.Tuple != e1.Tuple || e0.Index != 0 || e1.Index != 1 {
+			return 0, false
+		}
+		call, ok := e0.Tuple.(*ssa.Call)
+		if !ok || call.Call.IsInvoke() || len(call.Call.Args) != 2 || call.Call.Args[0] != ssa.Value(cb.Params[0]) || call.Call.Args[1] != ssa.Value(cb.Params[1]) {
+			return 0, false
+		}
+		v := call.Call.Value
+		if ld, isLd := v.(*ssa.UnOp); isLd && ld.Op == token.MUL {
+			v = ld.X
+		}
+		fv, ok := v.(*ssa.FreeVar)
+		if !ok {
+			return 0, false
+		}
+		for i, f := range cb.FreeVars {
+			if f == fv {
+				if idx >= 0 && idx != i {
+					return 0, false
+				}
+				idx = i
+			}
+		}
+	}
+	return idx, rets > 0 && idx >= 0
+}
+
+// forwardingWrapperOf: fn answers with a forwarding callback around one of its parameters (countingCallback(cb, p));
+// the index of that parameter.
+func forwardingWrapperOf(fn *ssa.Function) (int, bool) {
+	if fn == nil || len(fn.Blocks) == 0 {
+		return 0, false
+	}
+	res := -1
+	for _, b := range fn.Blocks {
+		ret, ok := b.Instrs[len(b.Instrs)-1].(*ssa.Return)
+		if !ok {
+			continue
+		}
+		if len(ret.Results) != 1 {
+			return 0, false
+		}
+		v := ret.Results[0]
+		if ct, isCT := v.(*ssa.ChangeType); isCT {
+			v = ct.X
+		}
+		mc, ok := v.(*ssa.MakeClosure)
+		if !ok {
+			return 0, false
+		}
+		inner, _ := mc.Fn.(*ssa.Function)
+		fi, ok := forwardingCallback(inner)
+		if !ok || fi >= len(mc.Bindings) {
+			return 0, false
+		}
+		bound := mc.Bindings[fi]
+		// a captured parameter lives in a cell of its own: the cell holds the parameter if that is its only store
+		if al, isAl := bound.(*ssa.Alloc); isAl && al.Referrers() != nil {
+			var only ssa.Value
+			stores := 0
+			for _, r := range *al.Referrers() {
+				if st, isSt := r.(*ssa.Store); isSt && st.Addr == ssa.Value(al) {
+					stores++
+					only = st.Val
+				}
+			}
+			if stores == 1 {
+				bound = only
+			}
+		}
+		pi := -1
+		for i, prm := range fn.Params {
+			if bound == ssa.Value(prm) {
+				pi = i
+			}
+		}
+		if pi < 0 || (res >= 0 && res != pi) {
+			return 0, false
+		}
+		res = pi
+	}
+	return res, res >= 0
 }
